@@ -236,6 +236,39 @@ def r162(ctx):
                    f"the in-memory store validates against the pre-batch state - the backends disagree on batches that repeat a key",
                    where=f"{bb.file}:{rc.line}", sample=f"{st}: read not reachable from a write in the batch")
     ctx.floor("R16.2", "store reads in put_batch validation", nread, 2)
+    # the version the cache will hold for a key is the version of the *last* table write of that key in the batch:
+    # every table insert is followed by a plain map insert (last write wins) of (key, element version) into the staging
+    # map; an entry().or_insert() would keep the first
+    rb_ = p.fn(f"{BACKENDS['redb']}::put_batch")
+    rv_ = fnview(ctx, rb_, policy=False)
+    tins = [(bi, c) for bi, c in rb_.calls() if c.callee and "redb::Table" in c.callee.name and c.callee.name.endswith("::insert")]
+    loops_ = R.loops_over(rv_, lambda x: "kvvs" in x)
+    hdr_ = {h for h, _, _, _ in loops_}
+    stage = []
+    odd = []
+    for bi, c in rb_.calls():
+        nm = c.callee.name if c.callee else ""
+        if "BTreeMap" not in nm and "btree_map" not in nm:
+            continue
+        recv = rv_.expr(c.args[0]) if c.args else ("k", "?")
+        on_cache = any(x[0] == "field" and x[3] == "versions" for x in subexprs(recv))
+        if nm.endswith("BTreeMap::<K, V, A>::insert") and not on_cache and len(c.args) >= 3:
+            val = render(rv_.expr(c.args[2]))
+            stage.append((bi, c.line, val))
+        elif ("Entry" in nm or nm.endswith("::entry")) and not on_cache:
+            odd.append((c.line, nm.rsplit("::", 2)[-2] + "::" + nm.rsplit("::", 1)[-1]))
+    ctx.ob("R16.2", not odd, f"{rb_.name}/staging-last-write-wins",
+           f"the disk put_batch stages versions through {odd[:2]}: for a key that occurs twice the cache keeps the first version while "
+           f"the table keeps the last, so a later write below the stored version is accepted", where=f"{rb_.file}:{odd[0][0] if odd else rb_.line}",
+           sample="staged_versions.insert(key, version)")
+    for tbi, tc in tins:
+        sb_ = {x[0] for x in stage}
+        nxt = rb_.term(tbi).targets[:1]
+        missing = any(any(h in rv_.reach(t, cut_nodes=sb_) for h in hdr_) for t in nxt) if hdr_ else not stage
+        ctx.ob("R16.2", bool(stage) and not missing and all(v.endswith(".1.0") or "().0" in v or v.endswith(".0") for _, _, v in stage),
+               f"{rb_.name}/table-write-staged",
+               "a table write of the disk put_batch is not followed by staging (key, that element's version) for the version cache",
+               where=f"{rb_.file}:{tc.line}", sample="table.insert => staged_versions.insert(key, version)")
     # memory
     b = p.fn(f"{BACKENDS['memory']}::put_batch")
     fv = fnview(ctx, b, policy=False)
